@@ -88,6 +88,21 @@ pub fn check_case(case: &Case, rc: &RouterConfig) -> Vec<(String, String)> {
     for c in CODES {
         let got = observe_action(&action, c);
         let want = reference_obs(&spec, case.sampling_override, c);
+        // the entry the explain / impact analyses use: status for a response code with an assumed backend code (200) when the
+        // request-time phase decides nothing
+        {
+            let mut a = action.clone();
+            let mut t = redirectionio::action::UnitTrace::default();
+            let got_f = a.get_final_status_code_with_fallback(c, 200, &mut t);
+            let want_f = if c == 0 && want.status == 0 { (reference_obs(&spec, case.sampling_override, 200).status, 200) } else { (want.status, c) };
+            if got_f != want_f {
+                let (controls, conds) = feature_names(case);
+                out.push((
+                    format!("final-status-with-fallback:controls={controls}:conds={conds}"),
+                    format!("rules {:?} (rank pattern {}, sampling override {:?}): get_final_status_code_with_fallback({c}, 200) = {got_f:?}, reference {want_f:?}", spec, case.rank_pattern, case.sampling_override),
+                ));
+            }
+        }
         let (got_traced, traced_ids) = observe_action_traced(&traced, c);
         if got_traced != want || traced_ids != want.applied {
             let field = if got_traced != want { diff_field(&got_traced, &want) } else { "trace-rule-ids" };
@@ -187,7 +202,8 @@ pub fn run(tier: Tier) -> i32 {
             return;
         }
         let shapes = &work[i];
-        let rank_patterns: &[usize] = if shapes.len() <= 1 { &[0] } else { &[0, 1, 2, 3] };
+        // (for two rules "first two tied" is "all tied")
+        let rank_patterns: &[usize] = if shapes.len() <= 1 { &[0] } else if shapes.len() == 2 { &[0, 1, 3] } else { &[0, 1, 2, 3] };
         for &rank_pattern in rank_patterns {
             for sampling_override in OVERRIDES {
                 let via_router = (i + rank_pattern) % 64 == 0;
